@@ -58,7 +58,7 @@ func effectSites(t *Tree, f *ssa.Function, depth int) []effectSite {
 			}
 			out = append(out, effectSite{"write", "set-" + kind + "(" + normKey(a[1]) + ")", call, f})
 		case "deletePtKey":
-			out = append(out, effectSite{"write", "delete(" + normKey(a[1]) + ")", call, f})
+			out = append(out, effectSite{"write", "delete(" + normKey(a[1]) + ")" + nodeKindGuard(t, call), call, f})
 		case "renamePtKey":
 			out = append(out, effectSite{"write", "rename(to=" + normKey(a[1]) + ", from=" + normKey(a[2]) + ")", call, f})
 		case "setMeasurement":
@@ -121,6 +121,83 @@ func effectSignature(t *Tree, f *ssa.Function) string {
 	}
 	sort.Strings(ks)
 	return strings.Join(ks, "; ")
+}
+
+// nodeKindGuard: the argument node kinds under which this effect happens, when the call is dominated by (a
+// disjunction of) `funcExpr.Param[k].NodeType == K` tests: " when P0 is AttrExpr|Identifier".
+func nodeKindGuard(t *Tree, call *ssa.Call) string {
+	k2s, _ := kindTable(t)
+	type pk struct {
+		param string
+		kind  string
+	}
+	test := func(cond ssa.Value) (pk, bool) {
+		bo, ok := cond.(*ssa.BinOp)
+		if !ok || bo.Op.String() != "==" {
+			return pk{}, false
+		}
+		p := path(bo.X)
+		if !strings.HasSuffix(p, ".NodeType") {
+			return pk{}, false
+		}
+		k, isC := constInt(bo.Y)
+		if !isC {
+			return pk{}, false
+		}
+		m := reParamK.FindStringSubmatch(p)
+		if m == nil {
+			return pk{}, false
+		}
+		return pk{"P" + m[1], k2s[k]}, true
+	}
+	byParam := map[string]map[string]bool{}
+	add := func(x pk) {
+		if byParam[x.param] == nil {
+			byParam[x.param] = map[string]bool{}
+		}
+		byParam[x.param][x.kind] = true
+	}
+	// single dominating edges
+	for _, ec := range controlling(call.Block()) {
+		if x, ok := test(ec.Cond); ok && ec.Pol {
+			add(x)
+		}
+	}
+	// a multi-case arm: the nearest dominating block all of whose predecessors are true edges of such tests
+	for b := call.Block(); b != nil; b = b.Idom() {
+		if len(b.Preds) < 2 {
+			continue
+		}
+		all := true
+		var xs []pk
+		for _, p := range b.Preds {
+			iff, ok := p.Instrs[len(p.Instrs)-1].(*ssa.If)
+			if !ok || p.Succs[0] != b {
+				all = false
+				break
+			}
+			x, ok := test(iff.Cond)
+			if !ok {
+				all = false
+				break
+			}
+			xs = append(xs, x)
+		}
+		if all {
+			for _, x := range xs {
+				add(x)
+			}
+			break
+		}
+	}
+	var parts []string
+	for _, p := range sortedKeys(byParam) {
+		parts = append(parts, p+" is "+strings.Join(sortedKeys(byParam[p]), "|"))
+	}
+	if len(parts) == 0 {
+		return ""
+	}
+	return " when " + strings.Join(parts, " and ")
 }
 
 var _ = fmt.Sprint
